@@ -134,15 +134,17 @@ def mw_roles(ctx):
             r['target'] = deref(cfg, cfg.node_of(ret[0]), kw['target'])
         r['return'] = ret[0]
     hu = ctx.unit('cli.mw_handle_target')
-    for n in hu.own_nodes():
-        if isinstance(n, ast.Assign) and is_name(n.targets[0]) and isinstance(n.value, ast.Call) and is_name(n.value.func) \
-                and n.value.func.id not in hu.all_params and len(n.value.args) == 1 and is_name(n.value.args[0], hu.params[0]):
-            d = p.resolve_name(hu, n.value.func.id)
-            if d.kind == 'local':
-                r['load_func'] = n.value.func.id
-                r['loaded'] = n.targets[0].id
-                r['load_stmt'] = n
-    need = {'spec_text', 'target_text', 'spec', 'target', 'load_func', 'loaded'}
+    # the load call: a local callable applied to the text parameter; its result is kept in a
+    # local or returned at once
+    for c in calls_in(hu):
+        if is_name(c.func) and c.func.id not in hu.all_params and len(c.args) == 1 and is_name(c.args[0], hu.params[0]) \
+                and not c.keywords and p.resolve_name(hu, c.func.id).kind == 'local':
+            st = stmt_of(c)
+            r['load_func'] = c.func.id
+            r['load_call'] = c
+            r['load_stmt'] = st
+            r['loaded'] = st.targets[0].id if isinstance(st, ast.Assign) and st.value is c and is_name(st.targets[0]) else None
+    need = {'spec_text', 'target_text', 'spec', 'target', 'load_func', 'load_call'}
     ctx.require(need <= set(r), 'CLI middleware: roles not found: %s' % sorted(need - set(r)))
     return r
 
@@ -257,7 +259,11 @@ def printed_is_computed(ctx):
     hu = ctx.unit('cli.mw_handle_target')
     hr = [n for n in hu.node.body if isinstance(n, ast.Return)]
     ld = [R['load_stmt']]
-    ok = is_name(ld[0].value.args[0], hu.params[0]) and hr and is_name(hr[-1].value, R['loaded'])
+    hr_all = [n for n in hu.own_nodes() if isinstance(n, ast.Return) and n.value is not None]
+    carry = [n for n in hr_all if n.value is R['load_call'] or (R['loaded'] is not None and is_name(n.value, R['loaded']))]
+    # every return that is not the empty-text shortcut hands back the loader's result itself
+    other = [n for n in hr_all if n not in carry and not matches(n.value, '{}')]
+    ok = len(carry) >= 1 and not other
     ctx.ob(ok, hu, 'the loader result is returned unchanged: %s' % [norm(x) for x in ld])
     cu = ctx.unit('cli.get_command')
     cmd = [c for c in calls_in(cu) if callee_qual(p, cu, c) == 'face.Command' or (isinstance(c.func, ast.Name) and c.func.id == 'Command')]
